@@ -22,7 +22,7 @@ import xarray as xr
 from dask.array import Array as Dask_Array
 
 from . import gridops, metadata_parsers
-from .axis import Axis
+from .axis import VALID_POSITION_NAMES, Axis
 from .grid_ufunc import (
     GridUFunc,
     _check_data_input,
@@ -735,6 +735,11 @@ class Grid:
             to_pos = to[ax_name]
             if to_pos is None:
                 to_pos = ax._default_shifts[from_pos]
+            elif to_pos not in VALID_POSITION_NAMES.split("|"):
+                # the signature parser ignores blanks, so a misspelt position must be refused here
+                raise ValueError(
+                    f"Axis position must be one of {VALID_POSITION_NAMES.split('|')}, but got {to_pos!r} for axis {ax_name}"
+                )
 
             # TODO build this more directly?
             signature_1d = _GridUFuncSignature.from_string(
